@@ -58,6 +58,7 @@ def gen_scenario(rng):
     return dict(svcs=svcs, victim=victim, mode=mode, queries=queries, loopback=rng.random() < 0.6,
                 handle=rng.choice(['same', 'same', 'fresh']),       # unregister with the registered object or with a freshly built equal one
                 update=rng.choice([None, None, None, 'victim', 'other']),   # an update_service (new object, new port and TXT) well before the queries
+                update_host=rng.random() < 0.4,                              # ... that also changes the host name of the updated service
                 second=rng.choice([None, 130, 400, 1500]) if len(svcs) > 1 and mode == 'unregister' else None,
                 rereg=rng.random() < 0.3,
                 mcast=[rng.choice([20, 70, 120]) for _ in range(40)], tcd=[rng.choice([400, 450, 500]) for _ in range(10)])
@@ -130,6 +131,9 @@ def run_scenario(sc):
             if sc['update'] is not None:
                 j = sc['victim'] if sc['update'] == 'victim' else (sc['victim'] + 1) % len(infos)
                 sc['svcs'][j] = dict(sc['svcs'][j], port=sc['svcs'][j]['port'] + 1000, text=b'\x03u=1')
+                if sc.get('update_host'):
+                    # ... which also moves the service to another host name: a service that shared its host with the victim no longer does
+                    sc['svcs'][j] = dict(sc['svcs'][j], server=f"hmoved{j}.local.")
                 infos[j] = c03.mk_info(sc['svcs'][j])
                 await (await a.zc.async_update_service(infos[j]))
             await sim.sleep(5000)
@@ -141,20 +145,24 @@ def run_scenario(sc):
             async def inject():
                 for k, (dt, q) in enumerate(sc['queries']):
                     await sim.sleep_until(tu + dt)
-                    sim.net.inject(a, build_query(q, 100 + k), (q['src'], q['port']))
+                    sim.net.inject(a, build_query(q, 100 + k), (q['src'], q['port']), contain=True)
             inj = asyncio.ensure_future(inject())
             await sim.sleep_until(tu)
             res['registered_before'] = sorted(a.zc.registry._services)
+            async def unregister(info, what):
+                # an exception out of the withdrawal of a registered service is an observation (and a violation), not a crash of the harness
+                try:
+                    await (await a.zc.async_unregister_service(info))
+                except Exception as e:        # noqa: BLE001
+                    res.setdefault('api_error', f"{what} raised {type(e).__name__}: {e}")
             if sc['mode'] == 'unregister':
-                fut = await a.zc.async_unregister_service(infos[sc['victim']])
-                await fut
+                await unregister(infos[sc['victim']], 'async_unregister_service of the registered victim')
                 res['t_done'] = sim.now
                 if sc['second'] is not None:
                     await sim.sleep_until(tu + sc['second'])
                     other = (sc['victim'] + 1) % len(infos)
                     res['tu2'] = sim.now
-                    fut2 = await a.zc.async_unregister_service(infos[other])
-                    await fut2
+                    await unregister(infos[other], 'async_unregister_service of the second registered service')
                     res['t_done2'] = sim.now
                 if sc.get('rereg') and sc['second'] is None:
                     # the application renames the object it has just withdrawn and registers it again (the name setter, as a rename after a
@@ -203,6 +211,8 @@ def own_idents(s):
 def oracle(sc, res):
     if res['escaped']:
         return f"exception in the event loop: {res['escaped'][0]}"
+    if res.get('api_error'):
+        return res['api_error'] + " - the service is not withdrawn"
     tu = res['tu']
     withdrawals = []      # (service, start, end of goodbye sequence, all services withdrawn at once?)
     if sc['mode'] == 'unregister':
